@@ -56,3 +56,6 @@ def run(ctx, res):
         if bad:
             res.corr_break('Earley column %s differs from the model chart' % bad[0], {'grammar': g, 'text': rec['text'], 'lexer': rec['lexer'], 'column': bad[0],
                                                                                     'code': rec['cols'][bad[0]], 'model': m['cols'][int(bad[0])]})
+    # the grammar loader in front of all this (anonymous-terminal naming, pruning of unreachable rules / unused terminals): source-level metamorphic stream
+    import compilelib
+    compilelib.check(ctx, res, 11, 300, 6000)
